@@ -40,5 +40,11 @@ int mt_new_child(void);
 void mt_child_status(int pid, int status);
 void mt_as_child(void (*fn)(void *), void *arg);
 int mt_sig_has_handler(int sig);
+void mt_deliver_now(int sig);		/* the calling thread receives sig now (Sd/Sx logged) */
+int mt_child_pending(int only_dead);	/* children with a queued (terminating) status change not yet reaped */
+int mt_child_reaped(int pid);		/* termination already returned by wait4 */
+extern int mt_chld_thr;			/* thread that receives the SIGCHLD of mt_child_status (-1: default choice) */
+extern void (*mt_fork_hook)(int pid);	/* called in the parent right after a virtual fork (Fk logged) */
+extern void (*mt_kill_hook)(int pid, int sig);	/* called for every kill() that reached a live (unreaped) child */
 
 #endif
